@@ -156,6 +156,9 @@ def run(ctx, R, tier):
                         detail={'dominated': sorted(names_found)}, where=pb.where(gate))
 
     remove_rule(F, R)
+    # 'resuming, immediately or at a start time': the track's fades and start delay advance by the time its slice covers
+    from .c06 import ungated
+    ungated(F, R, rule='B.C12.ungated', fn_filter=lambda q: q.startswith('track::'))
 
     # ---- both storages holding Tracks remove with should_be_removed
     npred = 0
@@ -177,6 +180,10 @@ def run(ctx, R, tier):
     # ---- "removes the track at the next callback": every storage is swept on every path of every callback (the C08 rule)
     from . import c08
     c08.sweep(F, R)
+    # ... and what the sweep takes out has somewhere to go: every removed item is moved to the unused ring, whose capacity is the
+    # storage's (a smaller ring leaves dropped tracks in the mixer, still sounding)
+    c08.recycle(F, R)
+    c08.drain(F, R)
 
     # ---- a pause and a resume issued between the same two callbacks: the track polls them in the order both kinds of sound
     # do (pause, then resume), so the later resume is what remains
